@@ -42,6 +42,7 @@ class Lin:
         self.atoms = {}          # canonical expr -> index
         self.names = []
         self.side = []           # side constraints discovered while linearising (min/max/saturating_sub)
+        self.cases = {}          # atom index -> [constraints of case A, constraints of case B]: exact definition by case split
 
     def atom(self, e):
         e = canon(e)
@@ -82,19 +83,45 @@ class Lin:
         nm = _call_name(e)
         if nm in ("min", "max") and len(e[2]) == 2:
             i = self.atom(e)
+            forms = []
             for x in e[2]:
                 fx, kx = self.form(x)
+                forms.append((fx, kx))
                 d = dict(fx)
                 d[i] = d.get(i, 0) - 1
                 if nm == "min":          # x - m >= 0
                     self.side.append((d, kx))
                 else:                    # m - x >= 0
                     self.side.append(({a: -c for a, c in d.items()}, -kx))
+            if i not in self.cases:
+                (fa, ka), (fb, kb) = forms
+                def sub(f1, k1, f2, k2, k=0):        # f1 - f2 + k >= 0
+                    d_ = dict(f1)
+                    for a_, c_ in f2.items():
+                        d_[a_] = d_.get(a_, 0) - c_
+                    return (d_, k1 - k2 + k)
+                mi = ({i: Fraction(1)}, Fraction(0))
+                eq = lambda f1, k1: [sub(mi[0], mi[1], f1, k1), sub(f1, k1, mi[0], mi[1])]
+                if nm == "min":
+                    self.cases[i] = [[sub(fb, kb, fa, ka)] + eq(fa, ka), [sub(fa, ka, fb, kb, -1)] + eq(fb, kb)]
+                else:
+                    self.cases[i] = [[sub(fa, ka, fb, kb)] + eq(fa, ka), [sub(fb, kb, fa, ka, -1)] + eq(fb, kb)]
             return {i: Fraction(1)}, Fraction(0)
+        if nm in ("unwrap_or", "unwrap_or_default") and e[2] and _call_name(e[2][0]) == "checked_sub" and (len(e[2]) == 1 or (_is(strip_casts(e[2][1]), "const") and strip_casts(e[2][1])[1] == 0)):
+            return self.form(("call", "core::num::<impl usize>::saturating_sub", (e[2][0][2][0], e[2][0][2][1])))
         if nm == "saturating_sub" and len(e[2]) == 2:
             i = self.atom(e)
             fa, ka = self.form(e[2][0])
             fb, kb = self.form(e[2][1])
+            if i not in self.cases:
+                dab = dict(fa)
+                for a_, c_ in fb.items():
+                    dab[a_] = dab.get(a_, 0) - c_
+                kab = ka - kb                                    # a - b
+                s_minus = dict({a_: -c_ for a_, c_ in dab.items()}); s_minus[i] = s_minus.get(i, 0) + 1      # s - (a - b)
+                ab_minus_s = dict(dab); ab_minus_s[i] = ab_minus_s.get(i, 0) - 1                            # (a - b) - s
+                self.cases[i] = [[(dab, kab), (s_minus, -kab), (ab_minus_s, kab)],
+                                 [({a_: -c_ for a_, c_ in dab.items()}, -kab - 1), ({i: Fraction(-1)}, Fraction(0))]]
             d = {a: -c for a, c in fa.items()}
             for a, c in fb.items():
                 d[a] = d.get(a, 0) + c
@@ -253,8 +280,25 @@ class State:
     def all(self):
         return self.cons + self.lin.side + self.lin.nonneg()
 
+    def _combos(self):
+        """the case splits that define min / max / saturating_sub exactly (at most 5 atoms are split: 32 combinations)"""
+        keys = sorted(self.lin.cases)[:5]
+        combos = [[]]
+        for k in keys:
+            combos = [c + alt for c in combos for alt in self.lin.cases[k]]
+        return combos
+
+    def _empty(self, extra=()):
+        base = self.cons + list(extra) + self.lin.side + self.lin.nonneg()
+        if infeasible(base):
+            return True
+        combos = self._combos()
+        if len(combos) <= 1:
+            return False
+        return all(infeasible(base + c) for c in combos)
+
     def refuted(self):
-        if infeasible(self.all()):
+        if self._empty():
             return True
         # a != b on the path while the other constraints force a == b
         return any(self.entails(("eq", r[1], r[2])) for r in self.nes)
@@ -267,6 +311,6 @@ class State:
             return False
         for n in neg:
             extra = self.lin.relation(n)
-            if not infeasible(self.cons + extra + self.lin.side + self.lin.nonneg()):
+            if not self._empty(extra):
                 return False
         return True
